@@ -29,7 +29,7 @@ use std::collections::HashMap;
 use std::path::Path;
 use syn::{Expr, Stmt};
 
-pub const TARGETS: &[Target] = &[("evalmem", "EvalMem", evalmem as Gen)];
+pub const TARGETS: &[Target] = &[("evalmem", "EvalMem", evalmem as Gen), ("evalregs", "EvalRegs", evalregs as Gen)];
 
 const STRUCTS: [&str; 6] = ["Allocation", "LocalPointer", "GlobalPointer", "StackFrame", "Memory", "Pointer"];
 
@@ -818,5 +818,185 @@ pub fn evalmem(repo: &Path) -> Result<String, String> {
     }
 
     out.push_str(&footer("EvalMem"));
+    Ok(out)
+}
+
+// ====================================================================== evalregs
+//
+// The register file of the evaluator and the variable map of the code generator: what a variable
+// of the lowered IR is keyed by. Generated: `VarKind` / `Var` of src/lir/mod.rs (variants, fields,
+// and that equality and hashing are the DERIVED ones, i.e. over every field), the key types of
+// `vars` in `lir::eval` and of `ModuleBuilder::variable_map`, and the operand lookup of both
+// sides (shape-checked: a map lookup with the whole place, a miss stops loudly).
+
+fn regs_lean_ty(t: &str) -> Result<&'static str, String> {
+    match t {
+        "ScopeRef" | "Identifier" | "usize" => Ok("Nat"),
+        "VarKind" => Ok("VarKind"),
+        other => Err(format!("type `{other}` in Var / VarKind has no Lean counterpart in the register model")),
+    }
+}
+
+fn derives(attrs: &[syn::Attribute]) -> Vec<String> {
+    let mut out = vec![];
+    for a in attrs {
+        if a.path().is_ident("derive") {
+            let _ = a.parse_nested_meta(|m| {
+                out.push(m.path.to_token_stream().to_string().replace(' ', ""));
+                Ok(())
+            });
+        }
+    }
+    out
+}
+
+/// The key type `K` of an expression / type of the form `HashMap<K, V>` or `HashMap::<K, V>::new()`.
+fn hashmap_key(tokens: &str) -> Option<(String, String)> {
+    let t = nospace(tokens);
+    let t = t.strip_prefix("HashMap::<").or_else(|| t.strip_prefix("HashMap<"))?;
+    let t = t.strip_suffix(">::new()").or_else(|| t.strip_suffix('>'))?;
+    // split at the first top-level comma
+    let mut depth = 0;
+    for (i, c) in t.char_indices() {
+        match c {
+            '<' | '(' => depth += 1,
+            '>' | ')' => depth -= 1,
+            ',' if depth == 0 => return Some((t[..i].to_string(), t[i + 1..].to_string())),
+            _ => {}
+        }
+    }
+    None
+}
+
+pub fn evalregs(repo: &Path) -> Result<String, String> {
+    let lir = find::parse(repo, "src/lir/mod.rs")?;
+    let eval = find::parse(repo, "src/lir/eval.rs")?;
+    let codegen = find::parse(repo, "src/codegen/mod.rs")?;
+    let mut out = header("EvalRegs", &["src/lir/mod.rs", "src/lir/eval.rs", "src/codegen/mod.rs"])
+        .replace("import RotoV.Model.RustStd\nimport RotoV.Model.Lir\nimport RotoV.Model.Clif\n", "import RotoV.Model.EvalRegs\n");
+
+    // ---- VarKind / Var: generated from the declarations
+    let mut var_kind = None;
+    let mut var = None;
+    for item in &lir.items {
+        match item {
+            syn::Item::Enum(e) if e.ident == "VarKind" => var_kind = Some(e),
+            syn::Item::Struct(s) if s.ident == "Var" => var = Some(s),
+            _ => {}
+        }
+    }
+    let var_kind = var_kind.ok_or("src/lir/mod.rs: enum VarKind not found")?;
+    let var = var.ok_or("src/lir/mod.rs: struct Var not found")?;
+    for (name, attrs) in [("VarKind", &var_kind.attrs), ("Var", &var.attrs)] {
+        let d = derives(attrs);
+        for need in ["PartialEq", "Eq", "Hash"] {
+            if !d.iter().any(|x| x == need) {
+                return Err(format!(
+                    "{name}: `{need}` is not derived (derives: {d:?}); a hand-written implementation may ignore a field, the register model assumes equality and hashing over every field"
+                ));
+            }
+        }
+    }
+    // no hand-written PartialEq / Hash next to the derived ones (would not compile, but a removed derive plus an impl would)
+    out.push_str("/-- `lir::VarKind` (variants and payloads generated) -/\ninductive VarKind where\n");
+    for v in &var_kind.variants {
+        let mut line = format!("  | {}", v.ident);
+        for (i, f) in v.fields.iter().enumerate() {
+            let t = regs_lean_ty(&nospace(&txt(&f.ty)))?;
+            line += &format!(" (a{i} : {t})");
+        }
+        out.push_str(&line);
+        out.push('\n');
+    }
+    out.push_str("  deriving DecidableEq, Repr\n\n");
+    out.push_str("/-- `lir::Var` (fields generated; `PartialEq`, `Eq` and `Hash` are the derived ones: over every field) -/\nstructure Var where\n");
+    for f in &var.fields {
+        let n = f.ident.as_ref().ok_or("Var: tuple struct")?;
+        let t = regs_lean_ty(&nospace(&txt(&f.ty)))?;
+        out.push_str(&format!("  {n} : {t}\n"));
+    }
+    out.push_str("  deriving DecidableEq, Repr\n\n");
+
+    // ---- the evaluator: `let mut vars = HashMap::<K, IrValue>::new();`
+    let f = find::func(&eval, "eval", None)?;
+    let mut decl = None;
+    for s in &f.block.stmts {
+        if let Stmt::Local(l) = s {
+            if nospace(&txt(&l.pat)) == "mutvars" {
+                decl = l.init.as_ref().map(|i| txt(&i.expr));
+            }
+        }
+    }
+    let decl = decl.ok_or("lir::eval: no `let mut vars = …;` (the evaluator's register file)")?;
+    let (k, v) = hashmap_key(&decl).ok_or(format!(
+        "lir::eval: the register file `vars` is no longer one `HashMap::<Key, IrValue>::new()` for the whole run: `{decl}` (the register model has to follow the source)"
+    ))?;
+    if v != "IrValue" {
+        return Err(format!("lir::eval: the register file maps to `{v}`, modelled: IrValue"));
+    }
+    if k != "Var" {
+        return Err(format!("lir::eval: the register file is keyed by `{k}`; the lowered IR names a variable by a whole `Var` (scope and kind)"));
+    }
+    out.push_str(&format!("/-- key of the evaluator's register file: `let mut vars = {};` -/\nabbrev EvalKey := {k}\n\n", nospace(&decl)));
+    out.push_str("/-- the key a place is looked up / stored under in the evaluator (`vars.get(p)`, `vars.insert(to.clone(), …)`) -/\ndef evalKey (v : Var) : EvalKey := v\n\n");
+
+    // every use of `vars` is `vars.insert(<key>, <value>)` or `eval_operand(&vars, …)` / `&vars`
+    {
+        struct Uses(Vec<String>);
+        impl<'ast> syn::visit::Visit<'ast> for Uses {
+            fn visit_expr_method_call(&mut self, m: &'ast syn::ExprMethodCall) {
+                if nospace(&txt(&m.receiver)) == "vars" && m.method != "insert" {
+                    self.0.push(txt(m));
+                }
+                syn::visit::visit_expr_method_call(self, m);
+            }
+        }
+        let mut u = Uses(vec![]);
+        syn::visit::Visit::visit_block(&mut u, &f.block);
+        if let Some(x) = u.0.first() {
+            return Err(format!("lir::eval: the register file is used other than through `insert` and `eval_operand`: `{x}`"));
+        }
+    }
+    let eo = find::func(&eval, "eval_operand", None)?;
+    let sig = nospace(&txt(&eo.sig));
+    if !sig.contains("mem:&'aHashMap<Var,IrValue>") {
+        return Err(format!("eval_operand: the register file parameter is no longer `&HashMap<Var, IrValue>`: {}", txt(&eo.sig)));
+    }
+    let body = nospace(&txt(&eo.block));
+    let ok = body.starts_with("{matchop{Operand::Place(p)=>{letSome(v)=mem.get(p)else{panic!(")
+        && body.ends_with(")};v}Operand::Value(v)=>v,}}");
+    if !ok {
+        return Err(format!("eval_operand differs from the modelled shape (a place: `mem.get(p)`, a miss panics; a value: itself): {}", txt(&eo.block)));
+    }
+    out.push_str("/-- `eval_operand` (shape checked verbatim): a place is looked up under its whole `Var`, a miss is a\n    loud stop; an immediate is itself. -/\ndef eval_operand {α : Type} (vars : RMap EvalKey α) (op : Var ⊕ α) : Option α :=\n  match op with\n  | .inl p => vars.get (evalKey p)\n  | .inr v => some v\n\n");
+
+    // ---- the code generator: `variable_map: HashMap<Var, (Variable, Type)>`, `variable`, `operand`
+    let mut key = None;
+    for item in &codegen.items {
+        if let syn::Item::Struct(s) = item {
+            for fld in &s.fields {
+                if fld.ident.as_ref().map(|i| i == "variable_map").unwrap_or(false) {
+                    key = hashmap_key(&txt(&fld.ty));
+                }
+            }
+        }
+    }
+    let (jk, jv) = key.ok_or("src/codegen/mod.rs: no field `variable_map: HashMap<…>`")?;
+    if jk != "Var" || jv != "(Variable,Type)" {
+        return Err(format!("codegen: `variable_map` is `HashMap<{jk}, {jv}>`, modelled: HashMap<Var, (Variable, Type)>"));
+    }
+    let vf = find::func(&codegen, "variable", Some("FuncGen"))?;
+    let want = "{let(var,_ty)=*self.module.variable_map.entry(var.clone()).or_insert_with(||{letvar=self.builder.declare_var(ty);(var,ty)},);var}";
+    if nospace(&txt(&vf.block)) != want {
+        return Err(format!("FuncGen::variable differs from the modelled shape (`variable_map.entry(var.clone()).or_insert_with(declare_var)`): {}", txt(&vf.block)));
+    }
+    let of = find::func(&codegen, "operand", Some("FuncGen"))?;
+    let ob = nospace(&txt(&of.block));
+    if !ob.contains("let(var,ty)=self.module.variable_map.get(p).unwrap_or_else(||{ice!(") || !ob.contains("(self.builder.use_var(*var),*ty)") {
+        return Err("FuncGen::operand: a place is no longer `variable_map.get(p)` → `use_var`".into());
+    }
+    out.push_str("/-- key of the code generator's `variable_map` (one Cranelift variable per key; `use_var` yields the\n    last `def_var` of that variable) -/\nabbrev JitKey := Var\n\n/-- `FuncGen::variable` / `FuncGen::operand` (shape checked verbatim): `variable_map.entry(var.clone())`,\n    `variable_map.get(p)` -/\ndef jitKey (v : Var) : JitKey := v\n\n");
+
+    out.push_str(&footer("EvalRegs"));
     Ok(out)
 }
